@@ -75,6 +75,8 @@ pub struct Case {
     /// the caller supplies a layer set: it already knows `m1` and `via` (sharing layer number 68), `M1` (69) and a
     /// layer `other`; the LEF's remaining layer names are new to it
     pub supplied_layers: bool,
+    /// MANUFACTURINGGRID statement of the library (mantissa, scale), if any: it does not change what a raw unit is
+    pub grid: Option<(i64, u32)>,
 }
 
 const LAYERS: [&str; 5] = ["m1", "M1", "via", "boundary", "\u{e9}"];
@@ -281,6 +283,9 @@ pub fn to_lef(case: &Case) -> LefLibrary {
     if let Some(d) = case.dbu {
         lib.units = Some(lef21::LefUnits { database_microns: Some(lef21::LefDbuPerMicron(d)), ..Default::default() });
     }
+    if let Some((m, sc)) = case.grid {
+        lib.manufacturing_grid = Some(LefDecimal::new(m, sc));
+    }
     for m in &case.macros {
         let mut lm = LefMacro::new(m.name.clone());
         lm.size = Some((m.size.0.lef(), m.size.1.lef()));
@@ -398,7 +403,7 @@ impl CaseDriver for C16 {
     fn describe(&self, tier: Tier) -> Describe {
         Describe {
             rule: format!(
-                "LefLibrary values built directly: 1-2 macros with SIZE, 0-2 pins x 1-2 ports x 1-2 layer geometries, 0-2 obstruction layers (second optionally on the same layer => merged), 1-2 geometries per layer of kind RECT / POLYGON (3-5 points) / PATH (2-3 points, layer WIDTH), the second one optionally the first one stated again (digit for digit, with one more trailing zero on every number, or with the same digits and the decimal point moved one place: still two shapes), layer names from {{m1, M1, via, boundary, e-acute}}, a layer block optionally holding a VIA placement next to its shapes, the import optionally given a layer set that already knows m1 and via (sharing number 68), M1 and an unrelated layer; polygons optionally closed explicitly and paths optionally returning to their first point or stating a point twice in a row (digit for digit, or with one more trailing zero); UNITS DATABASE MICRONS absent / 1000 / 100 / 2000 / 10000 / 20000 (raw units stay 1e-4 um: the import declares Angstrom); the macro optionally has an ORIGIN statement ((0.5, 1.25) / (-2, 0)), which must not move any coordinate; every coordinate site takes one of 18 decimals Decimal::new(mantissa, scale) built from the site counter (so all sites differ: x != y everywhere): scale 0,1,2,4,5,6, negative, negative between -1 and 0, trailing zeros, zero spelled 0 and 0.000, four values (two positive, two negative) that are not a whole number of 1e-4 um, two non-zero values smaller than one such unit (0.00005, -0.000099), and two values beyond 2^31 raw units (214748.3648.., -300000.5..). Free: kind of the first shape and second macro; all other choices cost one deviation; all choice sequences with <= {} deviations. A state is one library value; non-trivial = at least one deviation. Oracle: value*10^4 computed on the decimal digits.",
+                "LefLibrary values built directly: 1-2 macros with SIZE, 0-2 pins x 1-2 ports x 1-2 layer geometries, 0-2 obstruction layers (second optionally on the same layer => merged), 1-2 geometries per layer of kind RECT / POLYGON (3-5 points) / PATH (2-3 points, layer WIDTH), the second one optionally the first one stated again (digit for digit, with one more trailing zero on every number, or with the same digits and the decimal point moved one place: still two shapes), layer names from {{m1, M1, via, boundary, e-acute}}, a layer block optionally holding a VIA placement next to its shapes, the import optionally given a layer set that already knows m1 and via (sharing number 68), M1 and an unrelated layer; polygons optionally closed explicitly and paths optionally returning to their first point or stating a point twice in a row (digit for digit, or with one more trailing zero); UNITS DATABASE MICRONS absent / 1000 / 100 / 2000 / 10000 / 20000 (raw units stay 1e-4 um: the import declares Angstrom); the library optionally states MANUFACTURINGGRID 0.005 / 0.00005 / 1 (which does not change what a raw unit is); the macro optionally has an ORIGIN statement ((0.5, 1.25) / (-2, 0)), which must not move any coordinate; every coordinate site takes one of 18 decimals Decimal::new(mantissa, scale) built from the site counter (so all sites differ: x != y everywhere): scale 0,1,2,4,5,6, negative, negative between -1 and 0, trailing zeros, zero spelled 0 and 0.000, four values (two positive, two negative) that are not a whole number of 1e-4 um, two non-zero values smaller than one such unit (0.00005, -0.000099), and two values beyond 2^31 raw units (214748.3648.., -300000.5..). Free: kind of the first shape and second macro; all other choices cost one deviation; all choice sequences with <= {} deviations. A state is one library value; non-trivial = at least one deviation. Oracle: value*10^4 computed on the decimal digits.",
                 self.bound(tier)
             ),
             assumptions: vec!["WIDTH is only generated on layers that hold a PATH (an unused non-representable WIDTH is not a coordinate of any shape)".into()],
@@ -419,7 +424,8 @@ impl CaseDriver for C16 {
             macros.push(g.makro(1, None));
         }
         let supplied_layers = g.c.cost(2, "caller-supplied-layers") == 1;
-        Case { macros, dbu, supplied_layers }
+        let grid = [None, Some((5, 3)), Some((5, 5)), Some((1, 0))][g.c.cost(4, "manufacturing-grid")];
+        Case { macros, dbu, supplied_layers, grid }
     }
     fn check(&self, case: &Case, key: &str, cx: &mut Cx) {
         let (_, unrep) = class_of(case);
